@@ -50,6 +50,10 @@ def impl_moral(case):
         G, lab = _build(case)
     except Exception as e:
         return {"err": "build:" + type(e).__name__}
+    if C.warm_decide(case, 4):
+        # query, edit the same object in place, query again (see common.warmup)
+        import pywhy_graphs.networkx as _pn
+        C.warmup(G, lambda: _pn.mixed_edge_moral_graph(G), layers=("directed", "bidirected", "undirected"))
     before = C.snapshot(G)
     try:
         H = pywhy_nx.mixed_edge_moral_graph(G)
